@@ -354,6 +354,150 @@ func runC18(c *core.Ctx) {
 	// blocked writers are released by the cancel at the end of Close: Close must get there although the sender failed
 	c.Rule("R8", "Close reaches its cancel: the wait for the sender ends when the sender has failed (shared with C06)", 1)
 	ruleFailedSenderReleasesCloser(c, e, "R8")
+	// Shutdown releases blocked writers through the bootstrap context, before it starts closing channels (whose
+	// Close may itself wait for a stalled sender)
+	c.Rule("R9", "Shutdown cancels the bootstrap context before it closes channels (shared with C13-R1)", 1)
+	importObligations(c, runC13, "R9", func(o *core.Obligation) bool { return strings.Contains(o.Key, "Shutdown/cancel-first") })
+	// an accepted write returns without waiting for the transport because the sender runs elsewhere
+	c.Rule("R10", "every Executor of the library starts its action on another goroutine and never calls it in Exec's own frame", 1)
+	ruleExecutorsAreAsync(c, e, "R10")
+}
+
+// ruleExecutorsAreAsync: for each type of the root package that implements Executor, Exec hands the action to a
+// `go` statement on every path and has no synchronous call of it (directly, through an immediately called or
+// deferred closure).
+func ruleExecutorsAreAsync(c *core.Ctx, e *ev, R string) {
+	p, r := c.P, e.r
+	root := p.TPkg("")
+	if root == nil || r.ExecutorIface == nil {
+		c.Unk(R, "executor/found", "", "root package or Executor interface not resolved")
+		return
+	}
+	n := 0
+	sc := root.Scope()
+	for _, nm := range sc.Names() {
+		tn, ok := sc.Lookup(nm).(*types.TypeName)
+		if !ok {
+			continue
+		}
+		named, ok := tn.Type().(*types.Named)
+		if !ok || types.IsInterface(named) || !core.Implements(named, r.ExecutorIface) {
+			continue
+		}
+		fn := p.DeclMethod(named, "Exec")
+		if fn == nil || fn.Blocks == nil || len(fn.Params) < 2 {
+			continue
+		}
+		n++
+		c.Instance(R)
+		c.FuncsSeen[p.QName(fn)] = true
+		action := ssa.Value(fn.Params[len(fn.Params)-1])
+		// values that denote the action inside fn and its closures
+		isAction := func(v ssa.Value) bool {
+			v = core.Unwrap(v)
+			if v == action {
+				return true
+			}
+			if fv, ok := v.(*ssa.FreeVar); ok {
+				// free variable bound to the action at the closure's creation
+				f := fv.Parent()
+				idx := -1
+				for i, x := range f.FreeVars {
+					if x == fv {
+						idx = i
+					}
+				}
+				found := false
+				if par := f.Parent(); par != nil && idx >= 0 {
+					core.AllInstrs(par, func(in ssa.Instruction) {
+						if mc, ok := in.(*ssa.MakeClosure); ok && mc.Fn == ssa.Value(f) && idx < len(mc.Bindings) && core.Unwrap(mc.Bindings[idx]) == action {
+							found = true
+						}
+					})
+				}
+				return found
+			}
+			return false
+		}
+		// closures of fn that run on another goroutine: the function of a `go` statement, and their closures
+		async := map[*ssa.Function]bool{}
+		var markAsync func(f *ssa.Function)
+		markAsync = func(f *ssa.Function) {
+			if f == nil || async[f] {
+				return
+			}
+			async[f] = true
+			for _, a := range f.AnonFuncs {
+				markAsync(a)
+			}
+		}
+		for _, f := range core.WithAnon(fn) {
+			core.AllInstrs(f, func(in ssa.Instruction) {
+				if g, ok := in.(*ssa.Go); ok {
+					markAsync(core.FuncValue(g.Call.Value, nil))
+				}
+			})
+		}
+		var syncCall ssa.Instruction
+		for _, f := range core.WithAnon(fn) {
+			if async[f] {
+				continue
+			}
+			core.AllInstrs(f, func(in ssa.Instruction) {
+				switch x := in.(type) {
+				case *ssa.Call:
+					if isAction(x.Call.Value) && syncCall == nil {
+						syncCall = in
+					}
+				case *ssa.Defer:
+					if isAction(x.Call.Value) && syncCall == nil {
+						syncCall = in
+					}
+				}
+			})
+		}
+		name := "executor/" + tn.Name()
+		if syncCall != nil {
+			c.Bad(R, name+"/no-synchronous-run", p.InstrPos(syncCall), "Executor.Exec runs the action on the calling goroutine on some path: a write that starts the sender then waits for the transport inside Write (non-blocking mode blocks; the caller's locks are held across the send)")
+			continue
+		}
+		c.OK(R, name+"/no-synchronous-run", p.Pos(fn.Pos()), "no call of the action in Exec's own frame")
+		// every path hands the action to a go statement
+		starts := func(in ssa.Instruction) bool {
+			g, ok := in.(*ssa.Go)
+			if !ok {
+				return false
+			}
+			if isAction(g.Call.Value) {
+				return true
+			}
+			f := core.FuncValue(g.Call.Value, nil)
+			calls := false
+			if f != nil {
+				for _, h := range core.WithAnon(f) {
+					core.AllInstrs(h, func(y ssa.Instruction) {
+						if cc := core.CallCommon(y); cc != nil && isAction(cc.Value) {
+							calls = true
+						}
+					})
+				}
+			}
+			return calls
+		}
+		tgt, path := core.Search(nil, fn.Blocks[0], func(x ssa.Instruction) core.Action {
+			switch {
+			case starts(x):
+				return core.Barrier
+			case core.IsNormalReturn(x):
+				return core.Target
+			}
+			return core.Continue
+		}, nil)
+		c.Check(tgt == nil, R, name+"/starts-on-every-path", p.Pos(fn.Pos()), "every path starts the action with a go statement", "Executor.Exec can return without having started the action (the sender never runs: accepted writes stranded)", p.PathString(path, tgt)...)
+	}
+	if n == 0 {
+		c.Unk(R, "executor/found", "", "no Executor implementation found in the root package")
+	}
 }
 
 func lookupGlobal(p *core.Prog, rel, name string) *ssa.Global {
